@@ -13,7 +13,7 @@ package box
 //@ func sealNonce
 //@ props C10
 //@ nonnil ephemeralPub peersPublicKey nonce
-//@ modifies heap
+//@ modifies *nonce
 //@ ensures result == nil
 //@ check_at "h.Sum(nonce[:0])" spec.hsize(h) == 24 && ghost(h, hlen) == 64
 //@ check_at "h.Sum(nonce[:0])" forall(q, 0, 32, ghost(h, hbuf)[q] == ephemeralPub[q]) && forall(q, 0, 32, ghost(h, hbuf)[32 + q] == peersPublicKey[q])
